@@ -63,6 +63,7 @@ def history(rng, data, meta, info, nq):
         mk = lambda off, size: "secdata " + fileq.hdr_tokens("shdr", cl, dict(sh_name=0, sh_type=1, sh_flags=0, sh_addr=0, sh_offset=off, sh_size=size,
                                                                                sh_link=0, sh_info=0, sh_addralign=1, sh_entsize=0))
         pairs = [[mk(a, l1), mk(a, l2)], [mk(a, l2), mk(a, l1)], [mk(a, l1), mk(a + l1 - l2, l2)], [mk(a, l1), mk(a, l1)], [mk(a, 0), mk(a, l2), mk(a + l2, 0)]]
+        pairs.append([mk(ln, 0), mk(ln - 1, 1), mk(ln, 1)])      # empty range exactly at EOF, last byte, one past
         for p in rng.sample(pairs, 2):
             pos = rng.randrange(0, len(qs) + 1)
             qs[pos:pos] = p
